@@ -182,16 +182,103 @@ def section_perturb(rep, mutate=None):
     T, SIM = m['T'], m['SIM']
     J = S.J
     eps = S.formal(0)
+    from .. import paths
     pva = sym_pva()
+    S.C.mod_mode = 'real'
     e = pd.Series([S.var('e_%s' % c) for c in TRAJECTORY_ERROR_COLS], index=TRAJECTORY_ERROR_COLS, dtype=object)
-    d = T.compute_state_difference(SIM.perturb_pva(pva, e * eps), pva)
+    ex = paths.Exec(S.C.dom + S.deg_domain())
+    orig = ex.decide
+
+    def decide(cond):
+        for c_ in S.C.cons[getattr(ex, '_nc', 0):]:
+            ex.solver.add(c_)
+        ex._nc = len(S.C.cons)
+        return orig(cond)
+    ex.decide = decide
+    res, _ = ex.run(lambda: (setattr(ex, '_nc', 0), T.compute_state_difference(SIM.perturb_pva(pva, e * eps), pva))[1], max_paths=32)
     meta = {'check': 'perturb'}
     obls = []
-    for i, c in enumerate(TRAJECTORY_ERROR_COLS):
-        obls.append(enga.zero('d(perturb_pva(p, eps e), p).%s = eps e.%s + O(eps^2)' % (c, c), J(d.iloc[i]).part(1) - e.iloc[i], 'perturbation recovered', meta=meta))
-        obls.append(enga.zero('order 0: d(p, p).%s = 0' % c, J(d.iloc[i]).part(0), 'perturbation recovered', meta=meta))
+    for pr in res:
+        if pr.status == 'abort' and pr.out == 'INFEASIBLE':
+            continue
+        if pr.status != 'ok':
+            raise RuntimeError('perturbation section failed symbolically: %s' % (pr.out,))
+        d = pr.out
+        extra = list(pr.pc)
+        for i, c in enumerate(TRAJECTORY_ERROR_COLS):
+            obls.append(enga.zero('d(perturb_pva(p, eps e), p).%s = eps e.%s + O(eps^2)' % (c, c), J(d.iloc[i]).part(1) - e.iloc[i], 'perturbation recovered', extra, meta))
+            obls.append(enga.zero('order 0: d(p, p).%s = 0' % c, J(d.iloc[i]).part(0), 'perturbation recovered', extra, meta))
     rep.run.encode(SIM.perturb_pva)
     return obls
+
+
+def section_perturb_finite(rep, mutate=None):
+    """FINITE perturbations (no formal parameter): a pure east or pure down displacement is
+    recovered EXACTLY by the difference functions, for every longitude in [-180, 180] including a
+    displacement that carries the point across the antimeridian; and perturb_lla adds exactly
+    east/((R_E+h) cos lat) to the longitude"""
+    import numpy as np
+    import pandas as pd
+    import z3
+    from .. import symreal as S, enga, paths
+    from .c05 import sym_pva
+    S.new_ctx()
+    m = enga.install()
+    if mutate:
+        mutate(m)
+    T, SIM, E = m['T'], m['SIM'], m['E']
+    J, O = S.J, S.O
+    S.C.mod_mode = 'real'
+    pva = sym_pva()
+    de, dd = S.var('east'), S.var('down')
+    S.C.dom += [z3.Real('east') >= -100000, z3.Real('east') <= 100000, z3.Real('down') >= -1000, z3.Real('down') <= 1000]
+    lla = pva[['lat', 'lon', 'alt']].values
+
+    cols9 = ['north', 'east', 'down', 'VN', 'VE', 'VD', 'roll', 'pitch', 'heading']
+
+    def body():
+        # east only and down only (a combined displacement changes the mean altitude at which the
+        # east difference is scaled: exact recovery holds for each alone)
+        p1 = T.perturb_lla(lla, O([0, de, 0]))
+        d1 = T.compute_lla_difference(p1, lla)
+        d2 = T.compute_state_difference(SIM.perturb_pva(pva, pd.Series([J(0), de] + [J(0)] * 7, index=cols9, dtype=object)), pva)
+        p3 = T.perturb_lla(lla, O([0, 0, dd]))
+        d3 = T.compute_lla_difference(p3, lla)
+        return p1, d1, d2, p3, d3
+    ex = paths.Exec(S.C.dom + S.deg_domain())
+    orig = ex.decide
+
+    def decide(cond):
+        for c in S.C.cons[getattr(ex, '_nc', 0):]:
+            ex.solver.add(c)
+        ex._nc = len(S.C.cons)
+        return orig(cond)
+    ex.decide = decide
+    res, _ = ex.run(lambda: (setattr(ex, '_nc', 0), body())[1], max_paths=32)
+    per_path = []
+    rn, re, rp = E.principal_radii(pva['lat'], pva['alt'])
+    for pr in res:
+        if pr.status == 'abort' and pr.out == 'INFEASIBLE':
+            continue
+        if pr.status != 'ok':
+            raise RuntimeError('finite perturbation failed symbolically: %s' % (pr.out,))
+        p1, d1, d2, p3, d3 = pr.out
+        extra = list(pr.pc)
+        meta = {'check': 'perturb_finite'}
+        obls = []
+        Z = lambda nm, e_: obls.append(enga.zero(nm, e_, 'finite perturbation recovered exactly', extra, meta))
+        Z('perturb_lla: longitude moves by east / ((R_E + h) cos lat), as a plain number', (J(p1[1]) - pva['lon']) * S.const(S.DEG) * rp - de)
+        Z('perturb_lla: latitude unchanged by an east displacement', J(p1[0]) - pva['lat'])
+        Z('perturb_lla: altitude unchanged by an east displacement', J(p1[2]) - pva['alt'])
+        Z('compute_lla_difference(perturb_lla(lla, (0, e, 0)), lla).east = e exactly', J(d1[1]) - de)
+        Z('compute_lla_difference(perturb_lla(lla, (0, e, 0)), lla).north = 0', J(d1[0]))
+        Z('compute_lla_difference(perturb_lla(lla, (0, e, 0)), lla).down = 0', J(d1[2]))
+        Z('compute_state_difference(perturb_pva(p, east e), p).east = e exactly', J(d2['east']) - de)
+        Z('perturb_lla: altitude moves by -down', J(p3[2]) - pva['alt'] + dd)
+        Z('compute_lla_difference(perturb_lla(lla, (0, 0, d)), lla).down = d exactly', J(d3[2]) - dd)
+        Z('compute_lla_difference(perturb_lla(lla, (0, 0, d)), lla).east = 0', J(d3[1]))
+        per_path.append(obls)
+    return per_path
 
 
 # ------------------------------------------------------------------------------------------
@@ -360,6 +447,7 @@ CANARIES = [
     ('swap branch forgets the sign', 'frames', ('T', 'compute_state_difference', 'result_sign = -1.0', 'result_sign = 1.0'), 3),
     ('down difference sign', 'series', ('T', 'compute_state_difference', 'difference.alt *= -1', 'difference.alt *= 1')),
     ('angle columns not reduced', 'series_up', ('T', 'compute_state_difference', 'difference[RPH_COLS] = util.to_180_range(difference[RPH_COLS])', 'pass')),
+    ('perturb_lla wraps the longitude', 'finite', ('T', 'perturb_lla', 'lla[:, 1] += np.rad2deg(dr_n[:, 1] / rp)', 'lla[:, 1] = util.to_180_range(lla[:, 1] + np.rad2deg(dr_n[:, 1] / rp))')),
     ('resampling keeps outside times', 'frames', ('T', 'resample_state', '(times <= state.index[-1])', '(times <= state.index[-1] + 10)'), 0),
     ('resampling reorders columns', 'frames', ('T', 'resample_state', 'return result[state.columns]', 'return result'), 0),
 ]
@@ -394,9 +482,10 @@ def run(run):
     for regime in ('nowrap', 'heading_up', 'heading_down', 'roll_up'):
         rep.finish(rep.batch([o for p_ in section_series(rep, regime=regime) for o in p_], timeout_s=timeout), PROP)
     rep.finish(rep.batch(section_perturb(rep), timeout_s=timeout), PROP)
+    rep.finish(rep.batch([o for p_ in section_perturb_finite(rep) for o in p_], timeout_s=timeout), PROP)
     for li in range(len(LAYOUTS)):
         rep.finish(rep.batch([o for p_ in section_frames(rep, li) for o in p_], timeout_s=timeout), PROP)
-    rep.selfcheck(PROP, [{'check': 'to180', 'point': {'a': a_}} for a_ in (190.0, -725.5, 1e4 + 0.25)] + [{'check': 'series', 'point': {}}] +
+    rep.selfcheck(PROP, [{'check': 'to180', 'point': {'a': a_}} for a_ in (190.0, -725.5, 1e4 + 0.25)] + [{'check': 'series', 'point': {}}, {'check': 'perturb_finite', 'point': {}}] +
                   [{'check': 'frames', 'point': {}, 'params': {'layout': li}} for li in range(len(LAYOUTS)) if li != 2])
     for can in CANARIES:
         name, sec, spec = can[:3]
@@ -405,6 +494,8 @@ def run(run):
                 obls = [o for p in section_to180(rep, _mut(spec)) for o in p]
             elif sec == 'series':
                 obls = [o for p in section_series(rep, _mut(spec), 'nowrap') for o in p]
+            elif sec == 'finite':
+                obls = [o for p in section_perturb_finite(rep, _mut(spec)) for o in p]
             elif sec == 'series_up':
                 obls = [o for p in section_series(rep, _mut(spec), 'heading_up') for o in p]
             else:
@@ -438,6 +529,20 @@ def replay(spec):
             if float(ra[0]) != r or float(rs.iloc[0]) != r:
                 fails.append('array/Series form of to_180_range(%r) differs from the scalar form' % a)
         return {'violated': bool(fails), 'detail': fails}
+    if chk == 'perturb_finite':
+        for lon in (pt.get('lon', 30.0), 179.9999, -179.9999, 180.0, 0.0, -30.0):
+            for e_ in (pt.get('east', 15.0), 15.0, -15.0, 1000.0):
+                lla = np.array([pt.get('lat', 40.0), lon, pt.get('alt', 100.0)])
+                p1 = transform.perturb_lla(lla, [0.0, e_, 0.0])
+                d1 = transform.compute_lla_difference(p1, lla)
+                pv = pd.Series([lla[0], lla[1], lla[2], 1.0, 2.0, 0.1, 3.0, 4.0, 50.0], index=TRAJECTORY_COLS)
+                er = pd.Series([0.0, e_, 0.0, 0, 0, 0, 0, 0, 0], index=TRAJECTORY_ERROR_COLS, dtype=float)
+                d2 = transform.compute_state_difference(sim.perturb_pva(pv, er), pv)
+                d3 = transform.compute_lla_difference(transform.perturb_lla(lla, [0.0, 0.0, 2.0]), lla)
+                tol = 1e-6 + 1e-9 * abs(e_)
+                if abs(d1[1] - e_) > tol or abs(d3[2] - 2.0) > 1e-8 or abs(d2['east'] - e_) > tol:
+                    fails.append('lon=%r east=%r: difference returns east %.6g / %.6g instead of the displacement' % (lon, e_, d1[1], d2['east']))
+        return {'violated': bool(fails), 'detail': fails[:3]}
     rng = np.random.RandomState(7)
     base = np.array([50.0, 30.0, 100.0, 5.0, -3.0, 0.5, 10.0, -20.0, 100.0])
     if chk in ('series', 'perturb'):
